@@ -1,6 +1,7 @@
 import Driver.Loop
 import ElaVerif.Model.Bloom
 import ElaVerif.Model.Murmur3
+import ElaVerif.Model.TxFilter
 open ElaVerif.Bloom ElaVerif.Murmur3 Driver
 
 namespace C39Drv
@@ -112,6 +113,35 @@ def step : List String → String
         | none => "bad-op"
       | _ => "bad-op"
     | _, _, _, _ => "bad-op"
+  | "txf" :: typ :: wire :: conf :: n :: rest =>
+    -- filter.New(newFilter).Load(TxFilterLoad{typ, wire}); Add...; MatchConfirmed / MatchUnconfirmed
+    match nat? typ, hexBytes? wire, nat? n with
+    | some typ, some w, some n =>
+      match takeHex n rest with
+      | some (adds, ty :: ver :: vote :: ptype :: hsh :: _lock :: m :: rest2) =>
+        match nat? ty, nat? ver, nat? vote, nat? ptype, hexBytes? hsh, nat? m with
+        | some ty, some ver, some vote, some ptype, some h, some m =>
+          match takeHex m rest2 with
+          | some (outs, []) =>
+            match ElaVerif.TxFilter.load typ w with
+            | none => "err"
+            | some (ft, f) =>
+              match addAll mm f adds with
+              | none => "panic"
+              | some g =>
+                -- a vote output (program hash of 21 zero bytes) follows the listed outputs
+                let outs' := if vote = 0 then outs else outs ++ [List.replicate 21 0]
+                let tx : Tx := ⟨h, UInt8.ofNat ty, outs', []⟩
+                let facts : ElaVerif.TxFilter.TxFacts := ⟨ty, ver, vote == 1, ptype⟩
+                let r := if conf = "1" then ElaVerif.TxFilter.matchConfirmed mm ft g tx facts
+                         else ElaVerif.TxFilter.matchUnconfirmed mm ft g tx facts
+                match r with
+                | some (b, _) => boolStr b
+                | none => "panic"
+          | _ => "bad-op"
+        | _, _, _, _, _, _ => "bad-op"
+      | _ => "bad-op"
+    | _, _, _ => "bad-op"
   | ["reload", bitsA, hfA, twA, bitsB, hfB, twB, data] =>
     match filter? bitsA hfA twA "-", filter? bitsB hfB twB "-", hexBytes? data with
     | some a, some b, some d =>
